@@ -31,9 +31,15 @@ class SubContract:
                 it.store(Ptr(args[0].r, args[0].o + lay.cell * i), Poly.const((o >> (S["rb"] * i)) & ((1 << S["rb"]) - 1)), lay.cell)
             self.calls.append(dict(X=X, Y=Y, pre_ok=(-L <= x - y < L)))
             return None
-        o = [ctx.input("sub%d_o%d" % (k, i), 0, (1 << S["rb"]) - 1) for i in range(lay.n)]
-        u = ctx.input("sub%d_u" % k, 0, 1)
         xv, yv = lay.value(X), lay.value(Y)
+        sho = [None] * lay.n; shu = None
+        if ctx.shadow is not None:
+            x, y = ctx.resolve(xv).eval(ctx.shadow), ctx.resolve(yv).eval(ctx.shadow)
+            shu = 1 if x < y else 0
+            ov_ = x - y + shu * L
+            sho = [(ov_ >> (S["rb"] * i)) & ((1 << S["rb"]) - 1) for i in range(lay.n)]
+        o = [ctx.input("sub%d_o%d" % (k, i), 0, (1 << S["rb"]) - 1, shadow=sho[i]) for i in range(lay.n)]
+        u = ctx.input("sub%d_u" % k, 0, 1, shadow=shu)
         # exact equation: val(o) = X - Y + l*u ; pivot on limb 0
         rest = ZERO
         for i in range(1, lay.n): rest = rest + o[i].scale(1 << (S["rb"] * i))
@@ -51,8 +57,10 @@ class SubContract:
         for k, c in enumerate(self.calls):
             d = c["xv"] - c["yv"]
             out.append(("sub call %d precondition -l <= X-Y < l" % k, c_or(lt(d, -L), ge(d, L))))
-            for i, x in enumerate(c["X"]): out.append(("sub call %d X limb %d < 2^r" % (k, i), ge(x, 1 << self.S["rb"])))
-            for i, x in enumerate(c["Y"]): out.append(("sub call %d Y limb %d < 2^r" % (k, i), ge(x, 1 << self.S["rb"])))
+            cc = None
+            for x in c["X"] + c["Y"]:
+                g = ge(x, 1 << self.S["rb"]); cc = g if cc is None else c_or(cc, g)
+            out.append(("sub call %d operand limbs < 2^r" % k, cc))
         return out
 
 class MontMulContract:
@@ -75,9 +83,15 @@ class MontMulContract:
                 it.store(Ptr(args[0].r, args[0].o + lay.cell * i), Poly.const((o >> (rb * i)) & ((1 << rb) - 1)), lay.cell)
             self.calls.append(dict(pre_ok=(a * b < R * L)))
             return None
-        o = [ctx.input("mm%d_o%d" % (k, i), 0, (1 << rb) - 1) for i in range(n)]
+        sho = [None] * n; sht = None
+        if ctx.shadow is not None:
+            a_, b_ = ctx.resolve(av).eval(ctx.shadow), ctx.resolve(bv).eval(ctx.shadow)
+            ov_ = (a_ * b_ * Rinv) % L
+            sht = (ov_ - a_ * b_ * Rinv) // L
+            sho = [(ov_ >> (rb * i)) & ((1 << rb) - 1) for i in range(n)]
+        o = [ctx.input("mm%d_o%d" % (k, i), 0, (1 << rb) - 1, shadow=sho[i]) for i in range(n)]
         plo, phi = ctx.interval(av * bv)
-        t = ctx.input("mm%d_t" % k, -((phi * Rinv) // L) - 1, 0)
+        t = ctx.input("mm%d_t" % k, -((phi * Rinv) // L) - 1, 0, shadow=sht)
         rest = ZERO
         for i in range(1, n): rest = rest + o[i].scale(1 << (rb * i))
         (m0, _), = o[0].t.items()
@@ -93,15 +107,17 @@ class MontMulContract:
         S = self.S; R = 1 << (S["rb"] * S["n"])
         for k, c in enumerate(self.calls):
             out.append(("montgomery_mul call %d precondition a*b < R*l" % k, ge(c["av"] * c["bv"], R * L)))
-            for nm in ("A", "B"):
-                for i, x in enumerate(c[nm]): out.append(("montgomery_mul call %d %s limb %d < 2^r" % (k, nm, i), ge(x, 1 << S["rb"])))
+            cc = None
+            for x in c["A"] + c["B"]:
+                g = ge(x, 1 << S["rb"]); cc = g if cc is None else c_or(cc, g)
+            out.append(("montgomery_mul call %d operand limbs < 2^r" % k, cc))
         return out
 
 def mk(rep, cfg, modpath, fn, nargs, in_tops, assume_lt, goal_fn, T, use_contract=True, extra_assume=None, bounds_note=""):
     S = SC[cfg]; lay = S["layout"]; rb = S["rb"]; n = S["n"]
-    def build_run(concrete=None):
+    def build_run(concrete=None, shadow=None):
         holder = {}
-        run = Run(module(modpath)); run.concrete = concrete
+        run = Run(module(modpath)); run.concrete = concrete; run.shadow = shadow
         sc = SubContract(run, S)
         if use_contract: run.it.intercept = [(S["sub"], sc)]
         out = run.out("out", lay)
@@ -123,7 +139,7 @@ def mk(rep, cfg, modpath, fn, nargs, in_tops, assume_lt, goal_fn, T, use_contrac
         return run, goals, o
     run, goals, o = build_run()
     def replay(env, gname):
-        r2, g2, o2 = build_run(env)
+        r2, g2, o2 = build_run(concrete=env)
         for (n2, c2) in g2:
             if n2 == gname: return eval_concrete(r2, c2), dict(llsym_concrete_outputs=[x.cval() for x in o2])
         return False, "goal not evaluable concretely: " + gname
@@ -137,7 +153,11 @@ def run_config(rep, cfg, tier, tasks):
     R = 1 << (rb * n)
     top256 = 1 << (256 - rb * (n - 1))
     canon = lambda o: [("out < l", ge(o, L))]
-    limbs_ok = lambda ol: [("out limb %d < 2^%d" % (i, rb), ge(x, 1 << rb)) for i, x in enumerate(ol)]
+    def limbs_ok(ol):
+        c = None
+        for x in ol:
+            g = ge(x, 1 << rb); c = g if c is None else c_or(c, g)
+        return [("every out limb < 2^%d" % rb, c)]
     prodlemma = lambda vals: [le(vals[0] * vals[-1], (2**256 - 1) ** 2)]
     note256 = "all limbs < 2^%d, top limb such that value < 2^256; product bound lemma a*b <= (2^256-1)^2 (monotonicity)" % rb
     # the contract of sub itself (no interception)
@@ -163,15 +183,19 @@ def run_config(rep, cfg, tier, tasks):
 def bytes_harnesses(rep, cfg, modpath, T):
     S = SC[cfg]; lay = S["layout"]; rb = S["rb"]; n = S["n"]
     # from_bytes
-    def b1(concrete=None):
-        run = Run(module(modpath)); run.concrete = concrete
+    def b1(concrete=None, shadow=None):
+        run = Run(module(modpath)); run.concrete = concrete; run.shadow = shadow
         out = run.out("out", lay); p, bs = run.arg("b", BYTES32, 255)
         run.call("vp_us_from_bytes", [out, p]); o = run.read(out, lay)
-        goals = [("value(limbs) == value(bytes)", ne(lay.value(o), BYTES32.value(bs)))] + [("limb %d < 2^%d" % (i, rb), ge(x, 1 << rb)) for i, x in enumerate(o)]
+        goals = [("value(limbs) == value(bytes)", ne(lay.value(o), BYTES32.value(bs)))]
+        cc = None
+        for x in o:
+            g = ge(x, 1 << rb); cc = g if cc is None else c_or(cc, g)
+        goals.append(("every limb < 2^%d" % rb, cc))
         return run, goals, o
     def rp(bf):
         def replay(env, gname):
-            r2, g2, o2 = bf(env)
+            r2, g2, o2 = bf(concrete=env)
             for (n2, c2) in g2:
                 if n2 == gname: return eval_concrete(r2, c2), dict(llsym_concrete_outputs=[x.cval() for x in o2])
             return False, "goal not found"
@@ -179,8 +203,8 @@ def bytes_harnesses(rep, cfg, modpath, T):
     run, goals, o = b1()
     discharge(rep, run, "%s/vp_us_from_bytes" % cfg, goals, o, cfg, "vp_us_from_bytes", "all 2^256 byte strings", timeout_s=T, replay=rp(b1), selftest=b1)
     # as_bytes
-    def b2(concrete=None):
-        run = Run(module(modpath)); run.concrete = concrete
+    def b2(concrete=None, shadow=None):
+        run = Run(module(modpath)); run.concrete = concrete; run.shadow = shadow
         out = run.out("out", BYTES32)
         b = [(1 << rb) - 1] * n; b[n - 1] = (1 << (256 - rb * (n - 1))) - 1
         p, limbs = run.arg("a", lay, b)
@@ -190,8 +214,8 @@ def bytes_harnesses(rep, cfg, modpath, T):
     run, goals, o = b2()
     discharge(rep, run, "%s/vp_us_as_bytes" % cfg, goals, o, cfg, "vp_us_as_bytes", "limbs < 2^%d, value < 2^256" % rb, timeout_s=T, replay=rp(b2), selftest=b2)
     # from_bytes_wide: 512-bit reduction
-    def b3(concrete=None):
-        run = Run(module(modpath)); run.concrete = concrete
+    def b3(concrete=None, shadow=None):
+        run = Run(module(modpath)); run.concrete = concrete; run.shadow = shadow
         sc = SubContract(run, S); mc = MontMulContract(run, S)
         run.it.intercept = [(S["sub"], sc), (S["sub"].replace("3sub|::sub", "14montgomery_mul|::montgomery_mul"), mc)]
         out = run.out("out", lay); p, bs = run.arg("w", BYTES64, 255)
